@@ -1,5 +1,5 @@
 """C16 — a torn final write costs at most the unacknowledged tail."""
-from gen import lib, crash
+from gen import lib, crash, recover
 
 PROP_FILE = "props/C16.v"
 WANT = ("recover", "post")
@@ -8,7 +8,9 @@ RULE = ("crash: as for C02, but the last file operation of every crash prefix th
         "with reuse_log_files true and false (half of the cases each), scanned, written to, cleanly "
         "reopened and scanned again: everything before the torn tail is kept and the writes "
         "acknowledged after the recovery are still present. Non-trivial: a torn image whose torn "
-        "operation is a WAL or manifest append; distinct by (history, crash point, cut).")
+        "operation is a WAL or manifest append; distinct by (history, crash point, cut). recover: every "
+        "torn image is also recovered by the extracted Recover.recover_image and compared with the real "
+        "DB::open (result, last sequence number, contents).")
 TRUSTED = ["SimFs: every FileSystem trait call is atomic and durable once it returns (durability below the trait — fsync, directory entries, rename atomicity — is assumed, not modelled)"]
 ASSUMPTIONS = ["single client; WriteOptions::synchronous is ignored by the code and by the model"]
 
@@ -31,21 +33,33 @@ def corpus():
     return res
 
 
+def gen_recover(tier, rng):
+    n = 6 if tier == "quick" else 150
+    return [crash.make_case(rng, "r%d" % i, rng.choice([6, 12, 25]), "all,torn", post_reuse=i % 2) for i in range(n)]
+
+
 def suites(tier, seed, rng):
-    return [crash.CrashSuite(corpus() + gen_cases(tier, rng), WANT)]
+    return [crash.CrashSuite(corpus() + gen_cases(tier, rng), WANT),
+            recover.RecoverSuite(gen_recover(tier, rng))]
 
 
 def replay_suites(rp):
+    if rp.get("suite") == "recover":
+        return [recover.RecoverSuite([rp["case"]])]
     return [crash.CrashSuite([rp["case"]], WANT)]
 
 
 def still_fails(suite, case, workdir):
     if case.count(" # ") != 2:
         return False
+    if suite == "recover":
+        return recover.still_fails(case, workdir)
     return crash.still_fails(case, workdir, WANT)
 
 
 def shrink(f, workdir):
+    if f["suite"] == "recover":
+        return recover.shrink(f["case"], workdir), f.get("detail", "")
     return crash.shrink(f["case"], workdir, WANT)
 
 
@@ -54,4 +68,6 @@ def nontrivial(suite, case):
 
 
 def classify(suite, case):
+    if suite == "recover":
+        return "recover:torn"
     return "crash:" + case.split(" # ")[2].split(",")[0].split(":")[0]
